@@ -164,7 +164,7 @@ def solve(ctx, cond, timeout_ms, extra=()):
 
 def run_harness(ssa_path, fname, params=None, fixlen=None, unwind=10, unwind_by_func=None, timeout_ms=120000,
                 inits=('regex',), hooks=None, exclude=None, want_reach=True, max_models=1, dump_smt=None,
-                terminal_obligations=('fatal', 'exit', 'logpanic')):
+                terminal_obligations=('fatal', 'exit', 'logpanic'), unwind_is_violation=False):
     """Execute harness `fname` (short name inside package path 'pkg') and decide all obligations.
     exclude: optional python callable(ctx) -> list of z3 constraints conjoined to every violation query
              (known-finding signatures)."""
@@ -202,6 +202,10 @@ def run_harness(ssa_path, fname, params=None, fixlen=None, unwind=10, unwind_by_
             obls.append(gobmc.Obligation('panic', 'explicit panic: %s' % (info.get('value'),), g, info.get('pos')))
         elif kind in terminal_obligations:
             obls.append(gobmc.Obligation('panic', 'process ends here (%s) although the harness expects a normal return' % kind, g, info.get('pos')))
+    if unwind_is_violation:
+        # termination is the property: a loop of the code under test that can exceed its bound is a violation candidate
+        # (confirmed only if the native replay does not return within its time limit)
+        obls = [gobmc.Obligation('panic', 'possible non-termination: ' + ob.name, ob.cond, ob.pos) if (ob.kind == 'unwind' and 'unwinding bound' in ob.name) else ob for ob in obls]
     solver_s = 0.0
     nq = 0
     only = hooks.get('only_obligations') if hooks else None
